@@ -940,6 +940,38 @@ pub fn rewrap_nonansi_with(text: &str, after_header: &str) -> String {
     text.to_string()
 }
 
+/// a protected envelope (IEEE 1800-2017 clause 34) of some size: what stands between begin_protected and
+/// end_protected is ordinary text for this parser; the number of lines decides how many memo entries lie between
+/// the two pragmas
+pub fn protected_envelope(rng: &mut Rng) -> String {
+    let mut out = String::new();
+    let head = [
+        "`pragma protect begin_protected\n",
+        "`pragma protect data_method=\"x-caesar\", data_keyname=\"rot13\", begin_protected\n",
+        "`pragma protect version=1, begin_protected\n",
+    ];
+    out.push_str(*rng.pick(&head));
+    let lines = [
+        "`pragma protect version=1\n",
+        "`pragma protect encrypt_agent=\"ACME tool\", encrypt_agent_info=\"1.0\"\n",
+        "`pragma protect key_keyowner=\"ACME\", key_keyname=\"ACME-2048\", key_method=\"rsa\"\n",
+        "`pragma protect encoding=(enctype=\"base64\", line_length=64, bytes=256), key_block\n",
+        "`pragma protect author=\"IP vendor\", author_info=\"support@example.com\"\n",
+        "`pragma protect runtime_license=(library=\"lic.so\", feature=\"runSecret\", entry=\"chk\", match=42)\n",
+        "`pragma protect data_method=\"aes128-cbc\"\n",
+        "`pragma protect encoding=(enctype=\"raw\", bytes=190), data_block\n",
+        "  wire hidden_0;\n",
+        "  wire hidden_1;\n",
+        "  wire hidden_key_0;\n",
+        "  // payload\n",
+    ];
+    for _ in 0..rng.below(11) {
+        out.push_str(*rng.pick(&lines));
+    }
+    out.push_str("`pragma protect end_protected\n");
+    out
+}
+
 /// `pragma with its expression list broken over lines in every way
 pub fn pragma_lines(rng: &mut Rng) -> String {
     if rng.chance(1, 4) {
